@@ -55,7 +55,7 @@ def units(tier, seed):
     big = [[5, 5, 90], [0, 1], [1, 0], [0, 0, 1], [0.5, 0.5], [1.0, 0.0], [0.2, 0.3, 0.5], [0, 3, 0, 1]]
     for v in big:
         us.append({"kind": "weighted", "weights": v, "full": tier != "quick" and sum(v) <= 2})
-    for src in ("ge", "stack", "sge"):
+    for src in ("ge", "stack", "sge", "dsge"):
         for L in (1, 2, 3):
             us.append({"kind": "wrapper", "src": src, "L": L})
     us.append({"kind": "native", "seeds": 32 if tier == "quick" else 256, "seed": seed})
@@ -110,7 +110,10 @@ def run_unit(unit) -> UnitResult:
         r.samples.append({"shuffle_n": n, "permutations": len(got)})
     elif k == "pop":
         n = unit["n"]
-        for base in ([f"e{i}" for i in range(n)], ["d"] * n, (["d", "e"] * n)[:n]):
+        bases = [[f"e{i}" for i in range(n)], ["d"] * n, (["d", "e"] * n)[:n],
+                 [[0] for _ in range(n)],  # equal but distinct objects
+                 ([1, 1.0, True, 1] * n)[:n]]
+        for base in bases:
             got = Counter()
 
             def run(s, base=base):
@@ -123,12 +126,14 @@ def run_unit(unit) -> UnitResult:
                 ok = ex.exc is None
                 if ok:
                     item, lst = ex.result
+                    # by identity: exactly the returned object left the list, every other object is still there once
                     rest = list(base)
-                    if item in rest:
-                        rest.remove(item)
-                        ok = sorted(rest) == sorted(lst)
-                    else:
+                    idx = next((i for i, x in enumerate(rest) if x is item), None)
+                    if idx is None:
                         ok = False
+                    else:
+                        rest.pop(idx)
+                        ok = len(rest) == len(lst) and sorted(map(id, rest)) == sorted(map(id, lst))
                 if not ok:
                     r.add_violation(V("RandomSource.pop_random", "not-exactly-one-removed", {"n": n}, dict(w0, choices=list(ex.choices)),
                                       f"pop_random({base}) -> {ex.result!r} {ex.exc!r}"))
@@ -187,7 +192,7 @@ def run_unit(unit) -> UnitResult:
         r.samples.append({"weights": ws, "counts": dict(got), "complete": unit["full"]})
     elif k == "wrapper":
         L = unit["L"]
-        alpha = [0, 1, 2, 3, 7, 1000, 1001, MAXSIZE - 1, MAXSIZE]
+        alpha = [0, 1, 2, 3, 7, 1000, 1001, 1023, 1024, 1025, MAXSIZE - 1, MAXSIZE]
         for dna in itertools.product(alpha, repeat=L):
             for lo, hi in BOUNDS:
                 src = _wrapper(unit["src"], list(dna))
@@ -338,6 +343,30 @@ def run_unit(unit) -> UnitResult:
 
 
 def _wrapper(kind, dna):
+    if kind == "dsge":
+        # the source dynamic SGE hands to refinements during mapping: genes are read per key through the decider
+        from geneticengine.representations.grammatical_evolution import dynamic_structured_ge as D
+
+        if not hasattr(D, "DynamicSGESource"):
+            raise RuntimeError("DynamicSGESource not found")
+        if "g" not in _DSGE:
+            _DSGE["b"] = G.build(G.family_shapes()[0])
+            _DSGE["g"] = _DSGE["b"].extract()
+
+        class Cyclic(RandomSource):  # on-demand extension keeps cycling through the same genes
+            def __init__(self):
+                self.i = 0
+
+            def randint(self, lo, hi):
+                v = dna[self.i % len(dna)]
+                self.i += 1
+                return v
+
+            def random_float(self, lo, hi):
+                return lo
+
+        gt = D.Genotype(Cyclic(), {int: list(dna), float: list(dna)})
+        return D.DynamicSGESource(D.DynamicSGEDecider(gt, _DSGE["g"], 5))
     if kind == "ge":
         from geneticengine.representations.grammatical_evolution.ge import ListWrapper
 
@@ -349,6 +378,9 @@ def _wrapper(kind, dna):
     from geneticengine.representations.grammatical_evolution.structured_ge import INFRASTRUCTURE_KEY, StructuredListWrapper
 
     return StructuredListWrapper({INFRASTRUCTURE_KEY: dna, "other": [5]})
+
+
+_DSGE: dict = {}
 
 
 def finalize(cr):
